@@ -226,6 +226,10 @@ pub struct NetCase {
     /// never resolves (the usual production set-up): the graceful accept loop instead of the plain one
     #[serde(default)]
     pub graceful_never: bool,
+    /// the client's transport answers Pending from `poll_ready` (with a wake-up) this many times for
+    /// every connection it is asked to make
+    #[serde(default)]
+    pub transport_not_ready: u8,
     pub pool: Option<NetPool>,
     pub connect_delay: u8,
     pub latency: u8,
@@ -509,13 +513,20 @@ pub struct RouteTransport {
     connect_delay: Duration,
     latency: Duration,
     dials: Arc<AtomicUsize>,
+    /// Pending answers left before this value (clones start afresh from the template's count) is ready
+    not_ready: u8,
 }
 
 impl tower::Service<http::request::Parts> for RouteTransport {
     type Response = SlowIo;
     type Error = std::io::Error;
     type Future = Pin<Box<dyn Future<Output = Result<SlowIo, std::io::Error>> + Send>>;
-    fn poll_ready(&mut self, _cx: &mut Context<'_>) -> Poll<Result<(), Self::Error>> {
+    fn poll_ready(&mut self, cx: &mut Context<'_>) -> Poll<Result<(), Self::Error>> {
+        if self.not_ready > 0 {
+            self.not_ready -= 1;
+            cx.waker().wake_by_ref();
+            return Poll::Pending;
+        }
         Poll::Ready(Ok(()))
     }
     fn call(&mut self, req: http::request::Parts) -> Self::Future {
@@ -919,6 +930,7 @@ fn build_client(case: &NetCase, routes: Arc<Vec<DuplexClient>>, dials: Arc<Atomi
         // hyper/h2 and the latency wrapper can keep exchanging single bytes at one virtual instant
         latency: Duration::from_millis(if effective_buf(case) >= 64 { case.latency as u64 } else { 0 }),
         dials,
+        not_ready: case.transport_not_ready % 3,
     };
     let pool_cfg = case.pool.as_ref().map(|p| {
         let mut cfg = hyperdriver::client::PoolConfig::default();
